@@ -173,7 +173,8 @@ func (u *Unit) registerModels() {
 				arr = sto(arr, add(b.Off, num(k)), emod(ediv(v, pow2(uint(8*(7-k)))), num(256)))
 			}
 			st.H = fx.def("H", sto(st.H, b.Ref, arr))
-			fx.labelStoreVal(c.C.Args[1], c.C.Args[2])
+			// derived fact, proved once and then available: the written bytes are be8(v)
+			fx.oblige("lemma", "PutUint64.be8", st.PC, eq(app(SSeq, "view", sel(st.H, b.Ref), b.Off, num(8)), app(SSeq, "be8", v)), c.Pos, "bytes written by PutUint64 are be8(v)")
 			return VUnit{}
 		})
 
@@ -274,36 +275,37 @@ func (u *Unit) registerModels() {
 			return VStr{ite(app(SBool, "hasprefix", s, p), app(SSeq, "sub", s, app(SInt, "len", p), app(SInt, "len", s)), s)}
 		})
 
-	u.reg("(*encoding/base32.Encoding).DecodeString", "for the standard padded encoding: err == nil iff stdok(s); on success the result is a fresh slice holding stddec(s); for any other encoding the result is unconstrained", nil,
+	u.reg("(*encoding/base32.Encoding).DecodeString", "when the receiver is syntactically base32.StdEncoding: err == nil iff stdok(s); on success the result is a fresh slice holding stddec(s); for any other receiver the result is unconstrained", nil,
 		func(fx *FX, st *State, c *CallCtx) Val {
-			enc := c.Args[0].(VPtr)
 			s := c.Args[1].(VStr).T
-			isStd := fx.isStdEncoding(st, enc)
 			ok := fx.fresh("decok", SBool)
-			fx.assume(tTrue, implies(isStd, app(SBool, "=", ok, app(SBool, "stdok", s))))
 			content := fx.fresh("decoded", SSeq)
-			fx.assume(tTrue, implies(and(isStd, ok), eq(content, app(SSeq, "stddec", s))))
+			if encKindOf(c.C.Args[0]) == "std" {
+				fx.assume(tTrue, app(SBool, "=", ok, app(SBool, "stdok", s)))
+				fx.assume(tTrue, implies(ok, eq(content, app(SSeq, "stddec", s))))
+			} else {
+				fx.note("base32 decoding with a receiver other than StdEncoding: result unconstrained")
+			}
 			r := freshBytes(fx, st, content, "dec")
-			fx.labelCopy(c.V, c.C.Args[1])
 			return VTuple{E: []Val{r, fx.condError(st, ok, "b32")}}
 		})
-	u.reg("(*encoding/base32.Encoding).EncodeToString", "for the standard alphabet without padding returns b32nopad(src); otherwise unconstrained", nil,
+	u.reg("(*encoding/base32.Encoding).EncodeToString", "when the receiver is syntactically base32.StdEncoding.WithPadding(base32.NoPadding): returns b32nopad(src); for StdEncoding b32std(src); otherwise unconstrained", nil,
 		func(fx *FX, st *State, c *CallCtx) Val {
-			enc := c.Args[0].(VPtr)
 			src := c.Args[1].(VSlice)
 			r := fx.fresh("encoded", SSeq)
-			fx.assume(tTrue, implies(fx.isNoPadEncoding(st, enc), eq(r, app(SSeq, "b32nopad", seqOfBytes(fx, st, src)))))
-			fx.assume(tTrue, implies(fx.isStdEncoding(st, enc), eq(r, app(SSeq, "b32std", seqOfBytes(fx, st, src)))))
-			fx.labelCopy(c.V, c.C.Args[1])
+			switch encKindOf(c.C.Args[0]) {
+			case "nopad":
+				fx.assume(tTrue, eq(r, app(SSeq, "b32nopad", seqOfBytes(fx, st, src))))
+			case "std":
+				fx.assume(tTrue, eq(r, app(SSeq, "b32std", seqOfBytes(fx, st, src))))
+			default:
+				fx.note("base32 encoding with an unrecognised receiver: result unconstrained")
+			}
 			return VStr{r}
 		})
-	u.reg("(encoding/base32.Encoding).WithPadding", "returns a copy of the encoding with the given padding character; StdEncoding.WithPadding(NoPadding) is the unpadded standard encoding", nil,
+	u.reg("(encoding/base32.Encoding).WithPadding", "returns a fresh encoding object; recognised syntactically by its users (StdEncoding.WithPadding(NoPadding))", nil,
 		func(fx *FX, st *State, c *CallCtx) Val {
-			// receiver is an Encoding struct value (copied from *StdEncoding)
 			res := fx.allocObj(st, "enc", nil)
-			isStdCopy := fx.encStructIsStd(st, c.Args[0])
-			pad := c.Args[1].(VInt).T
-			st.H = fx.def("H", sto(st.H, res, sto(sel(st.H, res), num(0), ite(and(isStdCopy, eq(pad, num(-1))), num(2), num(0)))))
 			return VPtr{Ref: res, Off: num(0), Elem: c.C.Signature().Results().At(0).Type().(*types.Pointer).Elem()}
 		})
 
@@ -346,35 +348,23 @@ func (u *Unit) registerModels() {
 	registerMoreModels(u)
 }
 
-// isStdEncoding: the receiver is the object base32.StdEncoding points to.
-func (fx *FX) isStdEncoding(st *State, enc VPtr) T {
-	g := fx.u.externGlobal("encoding/base32", "StdEncoding")
-	if g == nil {
-		return tFalse
+// encKindOf recognises, syntactically, which base32 encoding a value denotes.
+func encKindOf(v ssa.Value) string {
+	switch x := v.(type) {
+	case *ssa.UnOp:
+		if g, ok := x.X.(*ssa.Global); ok && x.Op == token.MUL && g.Pkg != nil && g.Pkg.Pkg.Path() == "encoding/base32" && g.Name() == "StdEncoding" {
+			return "std"
+		}
+	case *ssa.Call:
+		if callee := x.Call.StaticCallee(); callee != nil && callee.String() == "(encoding/base32.Encoding).WithPadding" {
+			if ld, ok := x.Call.Args[0].(*ssa.UnOp); ok && ld.Op == token.MUL && encKindOf(ld.X) == "std" {
+				if k, ok := x.Call.Args[1].(*ssa.Const); ok && k.Value != nil && k.Value.ExactString() == "-1" {
+					return "nopad"
+				}
+			}
+		}
 	}
-	gref := fx.u.globalRef(g)
-	std := sel(sel(fx.entry.H, gref), num(0))
-	return or(and(eq(enc.Ref, std), eq(enc.Off, num(0))), eq(sel(sel(st.H, enc.Ref), enc.Off), num(1)))
-}
-
-func (fx *FX) isNoPadEncoding(st *State, enc VPtr) T {
-	return eq(sel(sel(st.H, enc.Ref), enc.Off), num(2))
-}
-
-// encStructIsStd: an Encoding struct value that was loaded from *StdEncoding.
-func (fx *FX) encStructIsStd(st *State, v Val) T {
-	g := fx.u.externGlobal("encoding/base32", "StdEncoding")
-	if g == nil {
-		return tFalse
-	}
-	gref := fx.u.globalRef(g)
-	std := sel(sel(fx.entry.H, gref), num(0))
-	ts := flatten(v)
-	if len(ts) == 0 {
-		return tFalse
-	}
-	// the struct copy equals the contents of the StdEncoding object in its first leaf (identity proxy)
-	return eq(ts[0], sel(sel(fx.entry.H, std), num(0)))
+	return ""
 }
 
 func (u *Unit) externGlobal(pkgPath, name string) *ssa.Global {
